@@ -36,7 +36,7 @@ Proof.
   induction cs as [|[evs x] cs IH]; intros pend tr HQ Hp Hc Ht; simpl.
   - split; simpl; auto. apply Forall_app; auto.
   - inversion Hc; subst; simpl in *.
-    assert (He : Forall Q (pend ++ evs ++ [Ev rid i x])).
+    assert (He : Forall Q (pend ++ evs ++ [Ev rid i (Some x)])).
     { apply Forall_app; split; auto. apply Forall_app; split; auto. }
     destruct (p x).
     + destruct (IH [] tr HQ (Forall_nil _) H2 Ht) as [I1 I2]. split; simpl; auto.
@@ -50,13 +50,27 @@ Proof.
   induction cs as [|[evs x] cs IH]; intros pend tr HQ Hp Hc Ht; simpl.
   - split; simpl; auto. apply Forall_app; auto.
   - inversion Hc; subst; simpl in *.
-    assert (He : Forall Q (pend ++ evs ++ [Ev rid i x])).
+    assert (He : Forall Q (pend ++ evs ++ [Ev rid i (Some x)])).
     { apply Forall_app; split; auto. apply Forall_app; split; auto. }
     destruct (g x) as [|y ys].
     + apply IH; auto.
     + destruct (IH [] tr HQ (Forall_nil _) H2 Ht) as [I1 I2]. split; simpl; auto.
       constructor; auto. apply Forall_app; split; auto.
       apply Forall_forall. intros c Hin. apply in_map_iff in Hin. destruct Hin as [y' [<- _]]; simpl; auto.
+Qed.
+
+Lemma stream_in_events0 : forall s, stream_in s -> Forall Q (concat (map fst (cells s)) ++ trail s).
+Proof.
+  intros s [H1 H2]. apply Forall_app; split; auto.
+  induction (cells s) as [|c cs IH]; simpl; auto. inversion H1; subst. apply Forall_app; split; auto.
+Qed.
+
+Lemma stream_in_lpart : forall rid i h s, (forall x, Q (Ev rid i x)) -> stream_in s -> stream_in (lpart rid i h s).
+Proof.
+  intros rid i h s HQ Hs. pose proof (stream_in_events0 s Hs) as He. unfold lpart.
+  destruct (h (map snd (cells s))) as [|y ys]; split; simpl; auto.
+  constructor; simpl; auto. apply Forall_forall. intros c Hin. apply in_map_iff in Hin.
+  destruct Hin as [y' [<- _]]; simpl; auto.
 Qed.
 
 Lemma stream_in_events : forall s, stream_in s -> Forall Q (stream_events s).
@@ -84,7 +98,9 @@ Proof.
   - assert (HQ' : forall rid' st' x, In (rid', st') up -> Q (Ev rid' i x)) by (intros; eapply HQ; right; eauto).
     assert (HQr : forall x, Q (Ev rid i x)) by (intros; eapply HQ; left; eauto).
     specialize (IH i src m HQ').
-    destruct st as [f|p|g|].
+    destruct st as [f|p|g|h|].
+    4: { destruct (compute now up i src m) as [[s m1] ev]; simpl in *. destruct IH; split; auto.
+         apply stream_in_lpart; auto. }
     + destruct (compute now up i src m) as [[s m1] ev]; simpl in *. destruct IH; split; auto.
       apply stream_in_lmap; auto.
     + destruct (compute now up i src m) as [[s m1] ev]; simpl in *. destruct IH as [[I1 I2] I3]; split; auto.
@@ -174,7 +190,7 @@ Lemma compute_keeps : forall now rn i' src m k,
 Proof.
   induction rn as [|[rid st] up IH]; intros i' src m k Hk Hc; simpl; auto.
   specialize (IH i' src m k Hk Hc).
-  destruct st as [f|p|g|];
+  destruct st as [f|p|g|h|];
     try (destruct (compute now up i' src m) as [[s m1] ev]; simpl in *; exact IH).
   destruct (m_get (rid, i') m) as [data|]; simpl; auto.
   destruct (compute now up i' src m) as [[s m1] ev]; simpl in *. destruct IH as [I1 I2]. split.
@@ -189,7 +205,8 @@ Lemma compute_new_keys : forall now rn i' src m e,
 Proof.
   induction rn as [|[rid st] up IH]; intros i' src m e H; simpl in *; auto.
   specialize (IH i' src m e).
-  destruct st as [f|p|g|].
+  destruct st as [f|p|g|h|].
+  4: { destruct (compute now up i' src m) as [[s m1] ev]; simpl in *; auto. }
   - destruct (compute now up i' src m) as [[s m1] ev]; simpl in *; auto.
   - destruct (compute now up i' src m) as [[s m1] ev]; simpl in *; auto.
   - destruct (compute now up i' src m) as [[s m1] ev]; simpl in *; auto.
@@ -216,7 +233,9 @@ Proof.
     assert (HQ' : forall r (st' : stage A) x, In (r, st') down -> Q (Ev r i x)) by (intros; eapply HQ; right; eauto).
     assert (HQr : forall x, Q (Ev rid' i x)) by (intros; eapply HQ; left; eauto).
     specialize (IH rid up i src m Q Hk Hn' HQ'). simpl in IH.
-    destruct st as [f|p|g|].
+    destruct st as [f|p|g|h|].
+    4: { destruct (compute now (down ++ (rid, SPersist) :: up) i src m) as [[s m1] ev]; simpl in *.
+         destruct IH as [I1 [I2 [I3 I4]]]. split; [apply stream_in_lpart; auto | auto]. }
     + destruct (compute now (down ++ (rid, SPersist) :: up) i src m) as [[s m1] ev]; simpl in *.
       destruct IH as [I1 [I2 [I3 I4]]]. split; [apply stream_in_lmap; auto | auto].
     + destruct (compute now (down ++ (rid, SPersist) :: up) i src m) as [[s m1] ev]; simpl in *.
